@@ -141,6 +141,7 @@ func (p *poller) start() {
 			}
 
 		}
+		p.g.wgListener.Done()
 	}
 	<-p.chStop
 }
